@@ -308,4 +308,25 @@ def _bounded(expr: Lin, B: Lin):
                 dd = cand - B
                 if dd.is_const() and dd.c <= 0:
                     return True, ""
-    return False, f"no argument of min() yields a constant bound ≤ buffer_size for {expr}"
+    # not provable by one substitution: look for a concrete counterexample on a small grid of (buffer size, lengths, index);
+    # a witness refutes, no witness on the whole grid is accepted (recorded as grid-checked, not proved)
+    import itertools as _it
+
+    from ..sym import _base_atoms, _eval_lin
+
+    atoms = sorted(_base_atoms(expr) | _base_atoms(B))
+    if len(atoms) > 5:
+        raise AnalysisError(f"size bound of {expr} not decided (too many free quantities)")
+    dom = {a: (range(1, 6) if a == "B" else range(0, 14)) for a in atoms}
+    n_eval = 0
+    for vals in _it.product(*[dom[a] for a in atoms]):
+        asg = dict(zip(atoms, vals))
+        ve, vb = _eval_lin(expr, asg), _eval_lin(B, asg)
+        if ve is None or vb is None:
+            continue
+        n_eval += 1
+        if ve > vb:
+            return False, f"with {asg} the chunk is {ve} long, more than buffer_size {vb}"
+    if n_eval == 0:
+        raise AnalysisError(f"size bound of {expr} not decided (form cannot be evaluated)")
+    return True, ""
